@@ -1,2 +1,3 @@
 import Pylx.Basic
+import Pylx.Node
 import Pylx.LineNo
